@@ -29,6 +29,7 @@ class Contract:
         self.no_frame_check = kw.pop('no_frame_check', False)
         self.timeout = kw.pop('timeout', None)
         self.block = kw.pop('block', None)          # verify only this loop ordinal of the function (block contract)
+        self.blocks_only = kw.pop('blocks_only', False)   # only the block contracts are verified (the rest of the body is outside the subset)
         self.blocks = kw.pop('blocks', {})          # name -> dict(where=, requires=, ensures=, modifies=, locals=, raises=)
         self.split = kw.pop('split', None)          # [(obligation-name substring, {expr: (lo, hi)})]: solver-side case split
         self.cases = kw.pop('cases', None)          # name -> list of concrete values: top-level case split
